@@ -46,8 +46,22 @@ def run_one(mid, prop, apply_fn, workers, timeout=600):
                            stdout=subprocess.PIPE, stderr=subprocess.STDOUT, timeout=timeout)
         out = p.stdout.decode("utf-8", "replace")
         viol = [l for l in out.split("\n") if l.startswith("  rule=")]
-        return {"id": mid, "prop": prop, "result": {0: "MISSED", 1: "caught", 2: "harness-error"}.get(p.returncode, "rc%d" % p.returncode),
-                "wall": round(time.time() - t0, 1), "first": (viol[0][:300] if viol else out[-300:])}
+        res = {"id": mid, "prop": prop, "result": {0: "MISSED", 1: "caught", 2: "harness-error"}.get(p.returncode, "rc%d" % p.returncode),
+               "wall": round(time.time() - t0, 1), "first": (viol[0][:300] if viol else out[-300:])}
+        # replay fidelity: the first (minimised) replay file, re-run in a fresh process against the
+        # same changed tree, must reproduce the same violation (exit 1)
+        rl = [l for l in out.split("\n") if l.startswith("VIOLATION property=") and " replay=" in l]
+        if p.returncode == 1 and rl:
+            rpath = rl[0].split(" replay=", 1)[1].strip()
+            if os.path.exists(rpath):
+                p2 = subprocess.run([os.path.join(HERE, "check"), prop, "--replay", rpath], env=env, cwd=HERE,
+                                    stdout=subprocess.PIPE, stderr=subprocess.STDOUT, timeout=300)
+                res["replay_reproduced"] = (p2.returncode == 1)
+                try:
+                    res["replay_bytes"] = os.path.getsize(rpath)
+                except OSError:
+                    pass
+        return res
     finally:
         shutil.rmtree(dst, ignore_errors=True)
 
